@@ -255,6 +255,69 @@ class SedovScale(Obligation):
         cx.eq('post-shock pressure ~ rho (r_shock/t)^2', cx['b_p2'] * s * s, cx['a_p2'] * lam ** (-om) * lam * lam, when=same)
 
 
+class GuderleyScale(Obligation):
+    def __init__(self, n, gamma):
+        from . import guderley_common as G
+        self.G = G
+        self.n, self.gamma = n, gamma
+        self.id = 'C10.guderley.n%d.gamma=%s' % (n, gamma)
+        self.m = H.mod(G.GM)
+        self.modules = [self.m]
+        self.extra_shim = G.shim_extra()
+        self.functions = [self.m.state]
+        self.bounds = 'r, rho0, lambda, B, x and the radius ratio s symbolic; gamma fixed; both evaluations at the same similarity coordinate x = t_L/r^lambda'
+        self.skip_validation = True
+        self.max_paths = 200
+        self.replay_tol = 1e-5
+
+    def build(self, mk):
+        if Mode.symbolic(mk):
+            a = self.G.run_state(mk, self.n, self.gamma)
+            b = self.G.run_state(mk, self.n, self.gamma, r=mk('r') * mk('s'))
+            out = {'s': mk('s'), 'lam': mk('lam')}
+            for k in a:
+                out['a_' + k] = a[k]
+                out['b_' + k] = b[k]
+            return out
+        # replay on the real numerics: the similarity exponent and the reflected-shock position are the ones the code
+        # itself computes for this gamma; one similarity coordinate in each branch of state(); the worst case is returned
+        m = self.m
+        g = float(Fraction(self.gamma))
+        lam = m.eexp(self.n, g)
+        B = m.get_shock_position(self.n, g, lam)
+        r, s_, rho0 = abs(float(mk('r'))) + 0.1, abs(float(mk('s'))) + 0.1, abs(float(mk('rho0'))) + 0.1
+        names = ('density', 'velocity', 'pressure', 'sound_speed', 'specific_internal_energy')
+        worst, best = -1.0, None
+        for x in (-0.5, 0.5 * B, 2.0 * B):
+            a = dict(zip(names, m.state(r, rho0, self.n, g, lam, B, x)))
+            b = dict(zip(names, m.state(r * s_, rho0, self.n, g, lam, B, x)))
+            f1 = s_ ** (1 - lam)
+            dev = max(abs(b['pressure'] - a['pressure'] * f1 * f1) / max(abs(b['pressure']), 1e-300),
+                      abs(b['specific_internal_energy'] - a['specific_internal_energy'] * f1 * f1) / max(abs(b['specific_internal_energy']), 1e-300),
+                      abs(b['velocity'] - a['velocity'] * f1) / max(abs(b['velocity']), 1e-300),
+                      abs(b['density'] - a['density']) / max(abs(b['density']), 1e-300))
+            if dev > worst:
+                worst = dev
+                best = {'s': s_, 'lam': lam}
+                for k in a:
+                    best['a_' + k] = a[k]
+                    best['b_' + k] = b[k]
+        return best
+
+    def domain(self, V):
+        return [T.gt(V('r'), T.ZERO), T.gt(V('rho0'), T.ZERO), T.gt(V('lam'), T.ONE), T.gt(V('B'), T.ZERO), T.ne(V('x'), T.ZERO),
+                T.gt(V('s'), T.ZERO)]
+
+    def claims(self, cx):
+        s, lam = cx['s'], cx['lam']
+        f1 = s ** (1 - lam)
+        cx.eq('density at fixed x independent of r', cx['b_density'], cx['a_density'])
+        cx.eq('velocity ~ r^(1-lambda)', cx['b_velocity'], cx['a_velocity'] * f1)
+        cx.eq('sound speed ~ r^(1-lambda)', cx['b_sound_speed'], cx['a_sound_speed'] * f1)
+        cx.eq('pressure ~ r^(2-2 lambda)', cx['b_pressure'], cx['a_pressure'] * f1 * f1)
+        cx.eq('specific internal energy ~ r^(2-2 lambda)', cx['b_specific_internal_energy'], cx['a_specific_internal_energy'] * f1 * f1)
+
+
 def obligations(tier):
     obs = []
     for g in (1, 2, 3):
@@ -269,6 +332,9 @@ def obligations(tier):
         obs.append(FanScale('R', g))
         obs.append(MaderScale(g))
     obs.append(EHEPScale())
+    for n in (2, 3):
+        for gam in ([Fraction(7, 5)] if tier == 'quick' else H.G_FULL):
+            obs.append(GuderleyScale(n, gam))
     for g in (1, 2, 3):
         for gam in ([Fraction(7, 5)] if tier == 'quick' else H.G_FULL):
             obs.append(SedovScale(g, gam))
